@@ -324,6 +324,25 @@ def check_config(acc, family, prog, ints, is_dag, cfg, runner):
                 miss = [o for o in sel if o not in x.result.values]
                 if miss:
                     viol("selected-output-not-produced", f"all required inputs supplied but selected outputs {miss} were not produced")
+        # necessity of a seed per cycle: with several cyclic components, leaving out the whole seed of one of them is refused
+        if len(groups) >= 2:
+            for epn in choice:
+                drop = {q for q in eps[epn] if q not in req and not any(q in eps[o] for o in choice if o != epn)}
+                if not drop:
+                    continue
+                ins3 = {k: v for k, v in inputs.items() if k not in drop}
+                grp = next(gr for gr in groups if epn in gr)
+                if any(eps[o] <= set(ins3) for o in grp):
+                    continue  # (what is left still seeds this cycle through another of its entry points)
+                ckw3 = {k: v for k, v in ckw.items() if not (k == "entrypoint" and v == epn)}
+                rec3 = Rec()
+                n0 = len(h.calls)
+                x3 = _run(g, h, ins3, rec3, is_async, **ckw3)
+                acc.evaluations += 1
+                if _input_problem(x3) is None:
+                    viol("cycle-seed-omitted-accepted", f"the graph has {len(groups)} cycles; the seed {sorted(drop)} of the cycle entered at {epn} was left out (supplied {sorted(ins3)}) but the call was accepted: status {x3.status}, {len(h.calls) - n0} node calls")
+                elif len(h.calls) != n0 or rec3.log:
+                    viol("rejected-call-had-effects", f"cycle seed {sorted(drop)} omitted: {len(h.calls) - n0} node calls and {len(rec3.log)} events before the rejection")
         # necessity: each single omission
         for r in sorted(req):
             ins2 = {k: v for k, v in inputs.items() if k != r}
